@@ -34,6 +34,8 @@ OUTCOMES = [
     ('ok', 3, 3), ('err_listed', 5, 2), ('exc_conn', 4, 4), ('exc_reset', 2, 2), ('exc_timeout', 2, 2),
     ('err_unlisted', 2, 1), ('exc_other', 1, 1), ('lost_conn', 2, 2), ('batch_err_listed', 0, 5),
     ('batch_err_unlisted', 0, 2), ('garbage', 1, 1), ('invalid', 1, 1), ('id_mismatch', 1, 1), ('abort', 1, 1),
+    # the transport itself ends the attempt with asyncio.CancelledError (a BaseException; a cancelled inner future)
+    ('exc_cancelled', 1, 1),
 ]
 
 
@@ -220,9 +222,9 @@ def _net_script(scn: Dict[str, Any]) -> List[Dict[str, Any]]:
             p['resp'] = ('batch_error', LISTED_CODE, 'scripted batch error')
         elif o == 'batch_err_unlisted':
             p['resp'] = ('batch_error', UNLISTED_CODE, 'scripted batch error')
-        elif o in ('exc_conn', 'exc_reset', 'exc_timeout', 'exc_other', 'abort'):
+        elif o in ('exc_conn', 'exc_reset', 'exc_timeout', 'exc_other', 'abort', 'exc_cancelled'):
             p['exc'] = {'exc_conn': 'conn', 'exc_reset': 'reset', 'exc_timeout': 'timeout', 'exc_other': 'other',
-                        'abort': 'abort'}[o]
+                        'abort': 'abort', 'exc_cancelled': 'cancelled'}[o]
             p['exc_when'] = 'before'
         elif o == 'lost_conn':
             p['exc'] = 'conn'
@@ -353,7 +355,7 @@ def run_scenario(w: World, scn: Dict[str, Any], client_async: bool, suffix: str 
         obs.exc = e
         w.rec(node, 'caller.return', outcome='raise', exc=type(e).__name__, oid=w.ordinal(e))
     names = {node, st.net.name, st.server.node}
-    obs.records = [r for r in w.history[start:] if r['node'] in names or r['kind'] == 'sleep']
+    obs.records = [r for r in w.history[start:] if r['node'] in names or r['kind'] in ('sleep', 'fault')]
     return obs
 
 
